@@ -260,6 +260,30 @@ func init() {
 // ---- gocache (explorer deduplicator): ghost set of keys that were Set; Get may miss a key
 // that was set (eviction) but never reports a key that was never set ----
 func init() {
+	// sync/atomic.Bool: one Bool cell per object (sequentially consistent; interleavings with
+	// other goroutines are not modelled)
+	libHandlers["(*sync/atomic.Bool).Store"] = func(fr *Frame, st *State, c *ast.CallExpr, fn *types.Func) []Val {
+		x := fr.x
+		x.u.regHeap("atomic.Bool.v", "(Array Int Bool)")
+		r := fr.recvOf(st, c)
+		v := fr.expr(st, c.Args[0])
+		x.heapStore(st, "atomic.Bool.v", r.T, v.T)
+		return nil
+	}
+	libHandlers["(*sync/atomic.Bool).Load"] = func(fr *Frame, st *State, c *ast.CallExpr, fn *types.Func) []Val {
+		x := fr.x
+		x.u.regHeap("atomic.Bool.v", "(Array Int Bool)")
+		r := fr.recvOf(st, c)
+		return []Val{{T: "(select " + x.getHeap(st, "atomic.Bool.v") + " " + r.T + ")", S: "Bool", Ty: types.Typ[types.Bool]}}
+	}
+	abm := func(fr *Frame, c *ast.CallExpr, ms *modSet, markLhs func(ast.Expr)) {
+		fr.x.u.regHeap("atomic.Bool.v", "(Array Int Bool)")
+		ms.heapKeys["atomic.Bool.v"] = true
+	}
+	libMods["(*sync/atomic.Bool).Store"] = abm
+}
+
+func init() {
 	libHandlers["(error).Error"] = func(fr *Frame, st *State, c *ast.CallExpr, fn *types.Func) []Val {
 		x := fr.x
 		x.used("error.Error(): the text is a function of the error value (errors are immutable)")
